@@ -104,7 +104,7 @@ def Sgetitem2 (s : SArr) (i0 i1 : Index) : Except Err SVal :=
 /-- overwrite the selected atoms with the atom `v` (only the categories the container has) -/
 def SsetElement (s : SArr) (ix : Index) (v : AtomV) : Except Err SArr :=
   if !setIndexOk ix then .error .typeError
-  else if !(s.names.all (fun p => hasKey p.1 v.annot)) then .error unmodelled
+  else if !(s.names.all (fun p => hasKey p.1 v.annot)) then .error .keyError
   else match resolve s.atoms.length ix with
   | .error e => .error e
   | .ok sel =>
